@@ -39,6 +39,7 @@ static long W_calls[VP_MAXCO + 1];                         /* wrapped calls made
 static long W_kill_at[VP_MAXCO + 1];                       /* kill the coroutine before its K-th wrapped call (0 = never) */
 /* death at an arbitrary moment of the OTHER side's execution (SIGKILL while the victim is wherever it is, also blocked):
    the victim dies just before the J-th wrapped call the observer makes after the order was armed */
+static int W_eintr_budget;    /* that many blocking sem_timedwait calls are interrupted by a (handled) signal half-way */
 static int W_poke_server;     /* the server application has something to do on its own (a timer of its own fired): its loop wakes up once */
 static int W_hit_victim = -1, W_hit_observer = -1, W_hit_done;
 static long W_hit_at, W_hit_base;
@@ -70,7 +71,7 @@ int __real_kill(pid_t p, int s);
 static void w_reset(void)
 {
 	W_now = W_BASE; W_epoch = 0;
-	memset(WT, 0, sizeof WT); memset(W_dead, 0, sizeof W_dead); memset(W_calls, 0, sizeof W_calls); memset(W_kill_at, 0, sizeof W_kill_at); W_hit_victim = W_hit_observer = -1; W_hit_done = 0; W_hit_at = 0; W_poke_server = 0; memset(W_cred, 0, sizeof W_cred); W_fs_hook = NULL;
+	memset(WT, 0, sizeof WT); memset(W_dead, 0, sizeof W_dead); memset(W_calls, 0, sizeof W_calls); memset(W_kill_at, 0, sizeof W_kill_at); W_hit_victim = W_hit_observer = -1; W_hit_done = 0; W_hit_at = 0; W_poke_server = 0; W_eintr_budget = 0; memset(W_cred, 0, sizeof W_cred); W_fs_hook = NULL;
 	W_server_co = -1; W_dead_server_pid = 0; W_stop_server = 0; W_free_choices = 0; W_small_bufs = 0;
 }
 
@@ -264,6 +265,17 @@ int __wrap_sem_timedwait(sem_t *s, const struct timespec *abs)
 	w_call("sem_timedwait");
 	if (__real_sem_trywait(s) == 0) return 0;
 	w.deadline = (uint64_t)abs->tv_sec * 1000000000ULL + (uint64_t)abs->tv_nsec;
+	if (W_eintr_budget > 0 && vp_co_self() >= 0 && w.deadline > W_now + 2000000ULL) {
+		/* a handled signal arrives half-way through the wait: the call returns EINTR (its caller has to go on waiting
+		   for the rest of ITS timeout, not for a fresh one) */
+		struct waiter h = { .kind = WK_SLEEP };
+		W_eintr_budget--;
+		h.deadline = W_now + (w.deadline - W_now) / 2;
+		w_wait(&h, "sem_timedwait (until a signal interrupts it)");
+		if (__real_sem_trywait(s) == 0) return 0;
+		vp_log("  (sem_timedwait interrupted by a signal: EINTR)");
+		errno = EINTR; return -1;
+	}
 	for (;;) {
 		if (W_now >= w.deadline) { errno = ETIMEDOUT; return -1; }
 		w_wait(&w, "sem_timedwait");
